@@ -108,7 +108,7 @@ fn elem_for(it: Option<It>, i: usize) -> String {
     }
 }
 
-const PREDECL: &str = "v0 := null\nv1 := null\nv2 := null\nv3 := null\nv4 := null\nv5 := null\nv6 := null\nv7 := null\nk := null\nr := null\na := null\nb := null\nc := null\nn0 := null\nn1 := null\nn2 := null\n";
+const PREDECL: &str = "v0 := null\nv1 := null\nv2 := null\nv3 := null\nv4 := null\nv5 := null\nv6 := null\nv7 := null\nv8 := null\nv9 := null\nv10 := null\nv11 := null\nk := null\nr := null\na := null\nb := null\nc := null\nn0 := null\nn1 := null\nn2 := null\n";
 
 fn in_position(pos: usize, pat: &str, src: &str, prints: &str) -> String {
     match pos {
@@ -462,6 +462,11 @@ impl Check for C13 {
             "a := 1\nb := 2\n[a, [b]] = [b, [a]]\nprint([a, b])\n",
             "[p, q] := [1, 2]\n[q, p] := [p, q]\n",
             "a := [1]\n[a, b] := [a + [2], a]\nprint(b)\n",
+            "id := \"7\"\no := {\"user_7\": \"Jo\", \"z\": 1}\n{$\"user_${id}\": name, ..r} := o\nprint(name)\nprint(r)\nfn f({$\"user_${id}\": n}) {\nreturn n\n}\nprint(f(o))\nfor [_, {$\"user_${id}\": m}] in [o] {\nprint(m)\n}\n",
+            "k := \"a\"\no := {\"a\": 1, \"b\": 2}\n{k + \"\": p} := o\nprint(p)\n",
+            "fn rest(..r) {\nreturn r\n}\nfn bump(l) {\nl[0] = 9\nreturn 0\n}\nxs := [1, 2]\nprint(rest(xs.., bump(xs)))\nys := [1, 2]\nprint([ys.., bump(ys)])\nzs := [1, 2]\nprint([bump(zs), zs..])\n",
+            "fn grow(l) {\nl += [5]\nreturn l\n}\nxs := [1]\nprint([xs.., grow(xs)..])\nprint(xs)\n",
+            "o := {\"a\": 1}\nfn setb(p) {\np.b = 2\nreturn 0\n}\nprint({o.., \"z\": setb(o)})\nprint({\"z\": setb(o), o..})\n",
         ] {
             cases.push(Case::new(src.to_string(), T_REF, "targets or literal items that read what is being bound".to_string()));
         }
